@@ -75,9 +75,21 @@ def nodeTree (parts : List PartNode) : Except Err Node := do
 def lsOf (parts : List PartNode) (path : Name) : Except Err (List Name) := do
   let root ← nodeTree parts
   let toks := tokenize path
+  let failedAt (idx : List Nat) : Option Err :=
+    match idx with
+    | pi :: vi :: _ => ((parts[pi]?).bind (·.vols[vi]?)).bind (·.failed)
+    | _ => none
   match lookupIdx true root toks toks 0 [] with
-  | .error msg => pure [msg]
+  | .error msg =>
+    -- the walk enters a volume before it can miss a file inside it
+    match lookupIdx true root (toks.take 2) (toks.take 2) 0 [] with
+    | .ok idx2 =>
+      match (if toks.length ≥ 3 then failedAt idx2 else none) with
+      | some e => .error e
+      | none => pure [msg]
+    | .error _ => pure [msg]
   | .ok idx =>
+    if let some e := failedAt idx then .error e else
     match idx with
     | [] => do
       let pn ← assign (parts.map fun p => (partName p.letter, false))
@@ -127,6 +139,7 @@ def monoEnc : Enc := ⟨false, 2, 1, true⟩
 
 /-- the samples of one volume, paired and written (`ExportManager.export_samples`). -/
 def exportVolume (dir : List Name) (v : VolNode) : Except Err (List Exported) := do
+  if let some e := v.failed then throw e
   let samples := v.files.filterMap fun f =>
     match f.kind with
     | .sample h d => some (f.name, h, d)
